@@ -320,6 +320,22 @@ func getHandler(env *lisp.LEnv, in *lisp.LVal, name string, constraints []*lisp.
 	}
 	var res *lisp.LVal
 	switch lType {
+	case Bytes:
+		rest := builtinCheckAny(env, constraints)
+		res = newValidator(lisp.Formals("input"), func(env *lisp.LEnv, input *lisp.LVal) *lisp.LVal {
+			if input.Type != lisp.LBytes {
+				return lisp.ErrorConditionf(WrongType, "Input was not bytes for type %s", name)
+			}
+			return applyConstraint(env, rest, input)
+		})
+	case Error:
+		rest := builtinCheckAny(env, constraints)
+		res = newValidator(lisp.Formals("input"), func(env *lisp.LEnv, input *lisp.LVal) *lisp.LVal {
+			if input.Type != lisp.LError {
+				return lisp.ErrorConditionf(WrongType, "Input was not an error for type %s", name)
+			}
+			return applyConstraint(env, rest, input)
+		})
 	case String:
 		res = builtinCheckString(env, name, constraints)
 	case Int:
